@@ -24,7 +24,7 @@ type c13Doc struct {
 	mergeKind, posSel int
 }
 
-var c13MergeNames = []string{"alias", "list-one", "list-a-b", "list-b-a", "alias-to-a-merging-map"}
+var c13MergeNames = []string{"alias", "list-one", "list-a-b", "list-b-a", "alias-to-a-merging-map", "alias-to-a-map-merging-a-list"}
 var c13PosNames = []string{"merge-first", "merge-middle", "merge-last"}
 
 // c13ExplicitAlias: when set, the second explicit value of H is an alias (*x) to an anchored scalar instead of a plain
@@ -55,6 +55,14 @@ func c13Build(ka1, ka2, kb1, kb2, e1, e2 string, mergeKind, pos int) *yaml.Node 
 	if mergeKind == 4 {
 		// A: &a {<<: *b, KA1: 1, KA2: 2} — the merged map has a merge key of its own (B then precedes A in the document)
 		a.Content = append([]*yaml.Node{{Kind: yaml.ScalarNode, Tag: "!!merge", Value: "<<"}, aliasB()}, a.Content...)
+	}
+	var cmap *yaml.Node
+	if mergeKind == 5 {
+		// C: &c {KB1: 7, KA2: 8}   A: &a {<<: [*b, *c], KA1: 1, KA2: 2} — the merged map merges a list whose entries
+		// disagree on KB1 (the earlier entry b wins) and of which c also offers a key a has itself (a's own wins)
+		cmap = vMap(vStr(kb1), vInt("7"), vStr(ka2), vInt("8"))
+		cmap.Anchor = "c"
+		a.Content = append([]*yaml.Node{{Kind: yaml.ScalarNode, Tag: "!!merge", Value: "<<"}, vSeq(aliasB(), &yaml.Node{Kind: yaml.AliasNode, Value: "c", Alias: cmap})}, a.Content...)
 	}
 	var x *yaml.Node
 	switch mergeKind {
@@ -89,6 +97,9 @@ func c13Build(ka1, ka2, kb1, kb2, e1, e2 string, mergeKind, pos int) *yaml.Node 
 	first, second := []*yaml.Node{vStr("A"), a}, []*yaml.Node{vStr("B"), b}
 	if mergeKind == 4 {
 		first, second = second, first
+	}
+	if mergeKind == 5 {
+		first, second = []*yaml.Node{vStr("B"), b, vStr("C"), cmap}, first
 	}
 	var content []*yaml.Node
 	if c13ExplicitAlias {
@@ -130,11 +141,14 @@ func c13Ref(q, ka1, ka2, kb1, kb2, e1, e2 string, mergeKind int) (string, string
 		if okA {
 			return va, "merged"
 		}
-	case 4: // a's own keys, then what a merges from b
+	case 4, 5: // a's own keys, then what a merges from b (kind 5: from the list [b, c], where b comes first and c's keys are kb1 and ka2, both offered earlier)
 		if okA {
 			return va, "merged"
 		}
 		if okB {
+			if mergeKind == 5 && verifConcreteBool(verifEqStr(q, kb1)) {
+				return vb, "merged-through-the-merged-map-in-both-listed" // c offers kb1 too; b is listed first
+			}
 			return vb, "merged-through-the-merged-map"
 		}
 	case 2: // earlier list entries win
@@ -242,15 +256,18 @@ var c13RouteNames = []string{"traverse", "explode-then-traverse", "printer-explo
 // VerifC13Resolve: every read route gives the value the merge-key rules define.
 func VerifC13Resolve() {
 	ka1, ka2, kb1, kb2, e1, e2 := c13Keys()
-	mergeKind := verifChoice("merge", 5)
+	mergeKind := verifChoice("merge", 6)
 	pos := verifChoice("pos", 3)
 	q := verifStrN("q", 1, "ad")
 	want, src := c13Ref(q, ka1, ka2, kb1, kb2, e1, e2, mergeKind)
 	route := verifChoice("route", 5)
-	if route >= 3 && mergeKind != 4 && verifParam("allroutes", 0) == 0 {
+	if route >= 3 && mergeKind < 4 && verifParam("allroutes", 0) == 0 {
 		return // the map-alone routes differ from the whole-document ones only when a merged map has structure of its own
 	}
 	label := c13RouteNames[route] + " " + c13MergeNames[mergeKind] + " " + c13PosNames[pos] + " key=" + src
+	if mergeKind == 5 && pos != 0 && verifParam("nestedlistallpos", 0) == 0 {
+		return // quick tier: the nested merge list with the merge key of H in first position only
+	}
 	c13ExplicitAlias = verifChoice("explicitValueIsAlias", 2) == 1
 	if c13ExplicitAlias {
 		label += " explicit-alias"
@@ -265,7 +282,7 @@ func VerifC13Resolve() {
 		}
 	}
 	c13Target = "H"
-	if mergeKind == 4 && verifChoice("readThroughPlainAlias", 2) == 1 {
+	if mergeKind >= 4 && verifChoice("readThroughPlainAlias", 2) == 1 {
 		// S: *a — a plain alias of the map that has a merge key of its own: a's keys, then what a merges from b
 		c13Target = "S"
 		pick := func(k1, v1, k2, v2 string) (string, bool) {
@@ -282,6 +299,9 @@ func VerifC13Resolve() {
 			want, src = v, "own-key-of-the-aliased-map"
 		} else if v, ok := pick(kb1, "3", kb2, "4"); ok {
 			want, src = v, "merged-into-the-aliased-map"
+			if mergeKind == 5 && verifConcreteBool(verifEqStr(q, kb1)) {
+				src = "merged-into-the-aliased-map-in-both-listed"
+			}
 		}
 		label = c13RouteNames[route] + " plain-alias-of-a-merging-map key=" + src
 	}
